@@ -278,7 +278,7 @@ func mutate(g *lp.Gen, s string) string {
 	if len(b) == 0 {
 		return s
 	}
-	switch g.Intn(9) {
+	switch g.Intn(11) {
 	case 0:
 		b[g.Intn(len(b))] = byte(g.Intn(256))
 	case 1:
@@ -299,6 +299,31 @@ func mutate(g *lp.Gen, s string) string {
 		return strings.Replace(s, "\r\n\r\n", "\r\n\r\n"+g.Pick("zz", "-1", "7fffffffffffffffff", "", " 5"), 1)
 	case 8: // truncate
 		return s[:g.Intn(len(s))]
+	default: // damage ONE line terminator, anywhere in the message (start line, header line, blank line, chunk-size
+		// line, end of chunk data, last chunk, trailer line): ops 3 and 4 only reach the first ones
+		var at []int
+		for i := 0; i+1 < len(s); i++ {
+			if s[i] == '\r' && s[i+1] == '\n' {
+				at = append(at, i)
+			}
+		}
+		if len(at) == 0 {
+			return s
+		}
+		if k := strings.Index(s, "\r\n\r\n"); k >= 0 && g.Chance(1, 2) { // half of the time: one inside the body
+			var body []int
+			for _, i := range at {
+				if i > k+2 {
+					body = append(body, i)
+				}
+			}
+			if len(body) > 0 {
+				at = body
+			}
+		}
+		i := at[g.Intn(len(at))]
+		x := string([]byte{byte(g.PickInt('X', '0', ' ', '\r', 0, 0xff, 'a'))})
+		return s[:i] + g.Pick("\r"+x, "\r"+x, x+"\n", "\r", "\n", "\r\r\n", "\n\r") + s[i+2:]
 	}
 	return string(b)
 }
